@@ -981,7 +981,15 @@ func (w *World) BridgeStory(o HistOpts) {
 			w.block(o, 2*sec, func() { w.UpdateDataSpec(w.Gov, "trbbridge", spec) })
 		}
 	}
+	// the last block of the deposit round's window gets one more report (the round closes in that very block)
+	lateDone := false
 	for i := 0; i < 5; i++ {
+		if qm, err := w.App.OracleKeeper.CurrentQuery(w.Ctx, utils.QueryIDFromData(w.QData[dep])); err == nil && !lateDone && int64(qm.Expiration) == w.Height+1 && w.pick(2) == 0 {
+			lateDone = true
+			a := ops[w.pick(len(ops))]
+			w.block(o, 2*sec, func() { w.Submit(a, dep, val) })
+			continue
+		}
 		w.block(o, 2*sec)
 	}
 	// optionally a second round for the same deposit (a second aggregate, index 1)
@@ -1059,6 +1067,35 @@ func indexOfVal(vs []*Val, v *Val) int {
 	return 0
 }
 
+// CapStory (needs five validators): governance lowers the validator cap to three, so that only the three strongest
+// validators stay bonded; a selector then holds more delegations than the cap - with the strongest and the third bonded
+// validator and with the two that left the set - and none with the second strongest.  Its reporter's power must count
+// both bonded delegations.
+func (w *World) CapStory(o HistOpts) {
+	if len(w.Vals) < 5 {
+		return
+	}
+	sec := time.Second
+	n := len(w.Actors)
+	if w.Bal(w.Vals[0].Oper.Addr).LT(sdkmath.NewInt(1_000_000_000)) {
+		return
+	}
+	s := w.AddActor(fmt.Sprintf("cs%d", n), 400_000_000)
+	p, err := w.App.StakingKeeper.GetParams(w.Ctx)
+	if err != nil {
+		return
+	}
+	w.block(o, 2*sec, func() { w.UpdateStakingParams(w.Gov, 3, p.UnbondingTime) })
+	w.block(o, 2*sec)
+	w.block(o, 2*sec, func() { w.Delegate(s, w.Vals[0], 40_000_000+int64(w.pick(999))) }, func() { w.Delegate(s, w.Vals[2], 20_000_000+int64(w.pick(999))) },
+		func() { w.Delegate(s, w.Vals[3], 10_000_000) }, func() { w.Delegate(s, w.Vals[4], 5_000_000) }, func() { w.CreateReporter(s, sdkmath.LegacyZeroDec(), 1_000_000) })
+	for i := 0; i < 3; i++ {
+		q := w.currentCycleQuery()
+		w.block(o, 2*sec, func() { w.Tip(w.user(), q, 1_000_000) }, func() { w.Submit(s, q, hex32(uint64(1000+w.pick(5)))) })
+	}
+	w.block(o, 2*sec, func() { w.UpdateStakingParams(w.Gov, p.MaxValidators, p.UnbondingTime) })
+}
+
 // RemovalStory: the only way out of a selection other than switching.  Governance lowers the selector cap below a
 // reporter's current number of selectors, one of them lets its bonded stake fall below the reporter's minimum and is
 // removed by a third party (RemoveSelector); it then reports with what it still has, as its own reporter or through
@@ -1083,6 +1120,13 @@ func (w *World) RemovalStory(o HistOpts) {
 		return
 	}
 	w.block(o, 2*sec, func() { w.UpdateReporterParams(w.Gov, 2, p.MinTrb.Int64()) })
+	// c's stake is split: a jailed validator holds a little of it, a bonded one enough to meet the reporter's minimum:
+	// nobody may remove c
+	if len(w.Vals) > 1 {
+		jv := w.Vals[1+w.pick(len(w.Vals)-1)]
+		w.block(o, 2*sec, func() { w.Delegate(c, jv, 5_000_000) }, func() { w.ValJail(jv) })
+		w.block(o, 2*sec, func() { w.RemoveSelector(a, c) }, func() { w.RemoveSelector(b, c) })
+	}
 	w.block(o, 2*sec, func() { w.Undelegate(a, v, 100_000_000) })
 	w.block(o, 2*sec, func() { w.RemoveSelector(c, a) })
 	if w.pick(2) == 0 {
@@ -1090,6 +1134,9 @@ func (w *World) RemovalStory(o HistOpts) {
 	} else {
 		w.block(o, 2*sec, func() { w.CreateReporter(c, sdkmath.LegacyZeroDec(), 1_000_000) }) // fails: c is a selector
 		reps := w.reporters()
+		if len(reps) == 0 {
+			return
+		}
 		w.block(o, 2*sec, func() { w.SelectReporter(a, reps[w.pick(len(reps))]) })
 	}
 	q2 := w.currentCycleQuery()
@@ -1212,7 +1259,9 @@ func (w *World) RunHistory(o HistOpts) {
 			continue
 		}
 		if b == storyAt && w.pick(3) == 0 {
-			if o.GovOps && w.pick(3) == 0 {
+			if o.GovOps && len(w.Vals) >= 5 && w.pick(3) == 0 {
+				w.CapStory(o)
+			} else if o.GovOps && w.pick(2) == 0 {
 				w.RemovalStory(o)
 			} else {
 				w.SelectorStory(o)
